@@ -363,6 +363,10 @@ func (g *Global) modsetOfFunc(f *ssa.Function) map[string]modInfo {
 	}
 	fc := g.contracts.Funcs[key]
 	if fc != nil && (fc.Trusted || len(f.Blocks) == 0) {
+		if g.trustedEffects == nil {
+			g.trustedEffects = map[string]bool{}
+		}
+		g.trustedEffects[key] = true
 		return g.modsetFor(key, fc, f)
 	}
 	if ms, ok := g.modsets[f]; ok {
